@@ -115,3 +115,17 @@ func TestRecordedXmpNarrowFields(t *testing.T) {
 		t.Errorf("tiff:ImageWidth=\"70000\" decoded as %d", x.Tiff.ImageWidth)
 	}
 }
+
+// C13 SIGNX: xmp:Rating="-1" (rejected) was read by the unsigned parser and came back as 0 (unrated).
+func TestXmpNegativeRating(t *testing.T) {
+	for _, c := range []struct {
+		txt  string
+		want int8
+	}{{"-1", -1}, {"0", 0}, {"5", 5}} {
+		p := xmpPacket(`<rdf:Description rdf:about="" xmlns:xmp="http://ns.adobe.com/xap/1.0/" xmp:Rating="` + c.txt + `"></rdf:Description>`)
+		x, err := xmp.ParseXmp(strings.NewReader(p))
+		if err != nil || x.Basic.Rating != c.want {
+			t.Errorf("Rating %q: %d, err=%v, want %d", c.txt, x.Basic.Rating, err, c.want)
+		}
+	}
+}
